@@ -499,6 +499,9 @@ func ReplayFile(r *hk.Replay) int {
 	eager, _ := ex["eager"].(bool)
 	res, verdict := RunOne(f, ops, eager)
 	fmt.Println("history:", HistoryString(ops))
+	if res == nil {
+		res = &Result{}
+	}
 	if res.Mismatch != nil {
 		fmt.Println("mismatch:", res.Mismatch.Error())
 		fmt.Printf("VIOLATION property=%s replay=(replayed)\n", r.Property)
